@@ -117,6 +117,8 @@ def gen_write_history(rng, nops=40, sync_ratio=(1, 3), big_batches=False, reopen
             parts = ','.join(('p%s:%s' % (khex(k), v)) if v is not None else ('d%s' % khex(k)) for k, v in ups)
             ops.append('batch %s %d' % (parts, 1 if sync else 0))
             batches.append({'op_index': len(ops) - 1, 'sync': sync, 'updates': ups})
+            if rng.chance(1, 12):
+                ops.append('batch . %d' % rng.below(2))       # an EMPTY write batch: a 12-byte log record, acknowledged like any other
         elif c < 15: ops.append('flush')
         elif c < 17: ops.append('crange %d * *' % rng.below(3))
         elif c < 18: ops.append('compact * *')
